@@ -19,9 +19,9 @@ import (
 
 // concrete plugin types -> registered plugin name (what the user writes under `type`)
 var pluginNames = map[string]string{
-	"*vs.VariableSourceCsv":                 "file/csv",
-	"*vs.VariableSourceJSON":                "file/json",
-	"*vs.VariableSourceVariables":           "variables",
+	"*vs.VariableSourceCsv":                   "file/csv",
+	"*vs.VariableSourceJSON":                  "file/json",
+	"*vs.VariableSourceVariables":             "variables",
 	"*postprocessor.VarJsonpathPostprocessor": "var/jsonpath",
 	"*postprocessor.VarXpathPostprocessor":    "var/xpath",
 	"*postprocessor.VarHeaderPostprocessor":   "var/header",
